@@ -18,6 +18,8 @@ import MutagenModel.Model.Info.Mp4
 import MutagenModel.Model.Info.MpegInfo
 import MutagenModel.Spec.Info.Mpeg
 import MutagenModel.Spec.Info.Mp4
+import MutagenModel.Model.Info.Smf
+import MutagenModel.Spec.Info.Smf
 import Driver.Util
 namespace Driver
 open Mutagen Mutagen.Info
@@ -238,6 +240,21 @@ def mp3Frame (a : Args) (k : String) : Spec.Mp3.Frame := ⟨mp3Hdr (a.str (k ++ 
 def mp3Cbr (a : Args) : Spec.Mp3.Cbr :=
   { lead := mp3Lead a, f1 := mp3Frame a "f1", f2 := mp3Frame a "f2", f3 := mp3Frame a "f3", f4 := mp3Frame a "f4", trailing := a.bytes "trailing" }
 
+/-- SMF specification side.  `tracks=` tracks separated by `/`, events by `,`; an event is `delta:m:status:d1:d2|-:run`,
+`delta:t:us`, `delta:x:type:hex|-` (meta) or `delta:s:lead:hex|-` (sysex) -/
+def smfEvent (t : String) : Spec.Smf.Event :=
+  match t.splitOn ":" with
+  | [d, "m", st, d1, d2, run] => ⟨d.toNat!, .midi st.toNat! d1.toNat! (if d2 == "-" then none else some d2.toNat!) (run == "1")⟩
+  | [d, "t", us] => ⟨d.toNat!, .tempo us.toNat!⟩
+  | [d, "x", ty, b] => ⟨d.toNat!, .metaEv ty.toNat! (if b == "-" then [] else ibHex b)⟩
+  | [d, "s", l, b] => ⟨d.toNat!, .sysex l.toNat! (if b == "-" then [] else ibHex b)⟩
+  | _ => ⟨0, .metaEv 0x2F []⟩
+
+def smfFile (a : Args) : Spec.Smf.File :=
+  { format := a.nat "format", division := a.nat "division",
+    tracks := (if a.str "tracks" "" == "" then [] else (a.str "tracks").splitOn "/").map fun t =>
+      (if t == "-" then [] else t.splitOn ",").map smfEvent }
+
 def mp3Short (a : Args) : Spec.Mp3.Short :=
   { lead := mp3Lead a, frames := (["f1", "f2", "f3"].filter fun k => a.has (k ++ "h")).map (mp3Frame a), trailing := a.bytes "trailing" }
 
@@ -352,6 +369,12 @@ def infoBOp (a : Args) : String :=
   | "parse", "MP3cbr" => res showMp3 (Mp3.parse (a.bytes "data"))
   | "parse", "MP3xing" => res showMp3 (Mp3.parse (a.bytes "data"))
   | "parse", "MP3vbri" => res showMp3 (Mp3.parse (a.bytes "data"))
+  | "build", "SMFspec" => s!"ok v={hexField (smfFile a).build}"
+  | "expect", "SMFspec" =>
+    let f := smfFile a
+    s!"ok length={f.expected.render} ok={ibBit (decide f.OK)} partial={ibBit (decide f.Aligned)}"
+  | "parse", "SMFspec" => res (fun i => s!"length={i.render}") (Smf.parse (a.bytes "data"))
+  | "parse", "SMF" => res (fun i => s!"length={i.render}") (Smf.parse (a.bytes "data"))
   | "parse", "MP3" => res showMp3 (Mp3.parseFrom (a.bytes "data") (a.nat "offset"))
   | "syncs", _ => s!"ok v={showNatList (Mp3.syncScan (a.bytes "data") (a.nat "pos") (a.nat "max" 1048576))}"
   | "syncchunks", _ => s!"ok v={showNatList (Mp3.syncChunks (a.bytes "data") (a.nat "max" 1048576) ((a.bytes "data").length + 2) (a.nat "pos") 0 2 none)}"
